@@ -1,6 +1,7 @@
 package props
 
 import (
+	"encoding/base64"
 	"encoding/json"
 	"fmt"
 	"math/big"
@@ -16,6 +17,7 @@ import (
 	"github.com/cosmos/cosmos-sdk/codec"
 	codectypes "github.com/cosmos/cosmos-sdk/codec/types"
 	sdk "github.com/cosmos/cosmos-sdk/types"
+	banktypes "github.com/cosmos/cosmos-sdk/x/bank/types"
 	"pgregory.net/rapid"
 )
 
@@ -27,6 +29,27 @@ type c20g struct {
 	v *VestWorld
 	// interesting addresses
 	owner, vacc sdk.AccAddress
+}
+
+// disturb runs, one case in four, an earlier well-formed message of another module that names
+// accounts the custom modules rely on: a cfesignature MsgCreateAccount for a module account or for
+// the vesting account (with a valid fresh public key), or a bank transfer to a module address.
+// Whether the application accepts it is not this property's business; what follows must not panic.
+func (g *c20g) disturb() string {
+	t := g.t
+	if rapid.IntRange(0, 3).Draw(t, "disturb") != 0 {
+		return ""
+	}
+	targets := []sdk.AccAddress{ModuleAddr(vestingtypes.ModuleName), ModuleAddr(distrtypes.DistributorMainAccount), ModuleAddr(mintertypes.ModuleName),
+		ModuleAddr("fee_collector"), ModuleAddr("governance_booster_collector"), g.vacc}
+	target := targets[rapid.IntRange(0, len(targets)-1).Draw(t, "disturbTarget")]
+	if rapid.Bool().Draw(t, "disturbKind") {
+		pk := fmt.Sprintf(`{"@type":"/cosmos.crypto.secp256k1.PubKey","key":"%s"}`, base64.StdEncoding.EncodeToString(FreshAcc(4242).Priv.PubKey().Bytes()))
+		res, _ := RunSigMsg(g.v, &sigtypes.MsgCreateAccount{Creator: KeyAcc(3).Addr.String(), AccAddressString: target.String(), PubKeyString: pk})
+		return fmt.Sprintf("earlier MsgCreateAccount for %s ok=%v", target, res.OK())
+	}
+	res := g.v.Run(&banktypes.MsgSend{FromAddress: KeyAcc(3).Addr.String(), ToAddress: target.String(), Amount: sdk.NewCoins(sdk.NewInt64Coin(Denom, 7))})
+	return fmt.Sprintf("earlier bank MsgSend to %s ok=%v", target, res.OK())
 }
 
 func (g *c20g) addr(l string) string {
@@ -304,6 +327,7 @@ func TestC20Msgs(t *testing.T) {
 				v.Advance(2 * 3600 * secNs)
 			}
 		}
+		disturbed := g.disturb()
 		msg, isSig := g.msg()
 		// wire reachability: the message must survive marshal -> unmarshal -> UnpackInterfaces with the
 		// app codec (zero-valued fields are reachable by omitting them on the wire; nil entries in
@@ -349,7 +373,7 @@ func TestC20Msgs(t *testing.T) {
 			if res.VBFailed {
 				where = "ValidateBasic"
 			}
-			t.Fatalf("panic in %s: %v\nstate=%d message: %s", where, res.Panic, stateKind, desc)
+			t.Fatalf("panic in %s: %v\nstate=%d %s message: %s", where, res.Panic, stateKind, disturbed, desc)
 		}
 		if signersPanic != nil {
 			t.Fatalf("GetSigners panicked after ValidateBasic passed: %v\nmessage: %s", signersPanic, desc)
@@ -400,6 +424,7 @@ func TestC20Queries(t *testing.T) {
 		}
 		app := v.App
 		ctx := sdk.WrapSDKContext(v.Ctx)
+		disturbed := g.disturb()
 		ref := g.str("ref", strings.Repeat("ab", 32), strings.Repeat("zz", 32))
 		// all draws happen before the recover()-protected call (rapid signals with panics of its own)
 		addrArg := g.addr("a")
@@ -467,7 +492,7 @@ func TestC20Queries(t *testing.T) {
 			}
 		}()
 		if pan != nil {
-			t.Fatalf("query %s panicked: %v (state %d)", name, pan, stateKind)
+			t.Fatalf("query %s panicked: %v (state %d %s)", name, pan, stateKind, disturbed)
 		}
 		st.Case(true, map[string]interface{}{"query": name, "state": stateKind, "ref": ref}, "query_"+name)
 	})
